@@ -28,7 +28,7 @@ from checks import c01
 
 THEOREMS = ["Yardl.C13.spellings_build_the_same_tree", "Yardl.C13.shorthand_sound", "Yardl.C13.primitive_names_resolve_to_themselves",
             "Yardl.C13.documented_aliases", "Yardl.C13.alias_resolution_idempotent", "Yardl.C13.non_aliases_do_not_resolve",
-            "Yardl.C13.equal_plans_equal_bytes"]
+            "Yardl.C13.equal_plans_equal_bytes", "Yardl.C13.accepted_definitions_are_in_dependency_order"]
 
 
 class GoTree:
@@ -68,6 +68,7 @@ def run(report, tier, seed):
         type_level(report, lean, go, seed, 300 if quick else 6000)
         go.close()
         package_level(report, sc, ybin, lean, seed, 3 if quick else 25)
+        toposort_level(report, sc, inproc, lean, seed, 25 if quick else 300)
         lean.close()
 
 
@@ -280,3 +281,88 @@ def _same_behaviour(report, lean, a, b, replay, seed):
                                                                    variant=outs[1][:1] + (outs[1][1][:400],), vals=vals if len(json.dumps(vals)) < 3000 else "(large)"),
                              "the generated Python package behaves differently after reordering / re-splitting definitions")
             return
+
+
+# ------------------------------------------------------------------ dependency sort vs the Lean model
+
+def _mentions(t, local, acc):
+    k = t[0]
+    if k == "named":
+        if "." not in t[1] and t[1] in local:
+            acc.append(t[1])
+        for a in t[2]:
+            _mentions(a, local, acc)
+    elif k == "opt":
+        _mentions(t[1], local, acc)
+    elif k == "union":
+        for c in t[2]:
+            _mentions(c[1], local, acc)
+    elif k in ("vec", "arr"):
+        _mentions(t[1], local, acc)
+    elif k == "map":
+        _mentions(t[2], local, acc)
+        _mentions(t[1], local, acc)
+
+
+def toposort_level(report, sc, inproc, lean, seed, n):
+    """the order `topologicalSortTypes` leaves the definitions in (and whether it reports a cycle) against Topo.sort"""
+    import json
+    import subprocess
+    from checks import c09
+    rr = random.Random(seed * 4099 + 13)
+    for i in range(n):
+        g = modelgen.Gen(seed * 100207 + i)
+        g.avoid_bool_sequences = False
+        pkg = g.gen_package(n_imports=1) if i % 3 else modelgen.spelling_directed_package()
+        pkg = copy.deepcopy(pkg)
+        cyc = None
+        if i % 4 == 1:
+            imp = pkg.imports[0]
+            imp.defs = imp.defs + [{"kind": "record", "name": "ZzImpBox", "tparams": ["T"], "fields": [("v", ("tparam", "T"))]},
+                                   {"kind": "alias", "name": "ZzImpWrap", "tparams": ["T"], "type": ("vec", ("tparam", "T"), None)}]
+            cyc = rr.choice(c09.CYCLES)
+            pkg.defs = pkg.defs + c09._cycle(cyc, imp.namespace)
+        rr.shuffle(pkg.defs)
+        root = sc.path(f"topo{i}")
+        pd = vlib.write_package(root, pkg, random.Random(3), cpp=False, python=False, js=False)
+        p = subprocess.run([inproc, "dump", pd], stdout=subprocess.PIPE, stderr=subprocess.PIPE, timeout=60)
+        res = json.loads(p.stdout)
+        defs = [d for d in pkg.defs if d["kind"] != "protocol"]
+        names = [d["name"] for d in defs]
+        local = set(names)
+        deps = []
+        for d in defs:
+            acc = []
+            if d["kind"] == "record":
+                for _, ft in d["fields"]:
+                    _mentions(ft, local, acc)
+            elif d["kind"] == "alias":
+                _mentions(d["type"], local, acc)
+            deps.append([names.index(x) for x in acc])
+        m = lean.ask({"op": "topo", "deps": deps, "roots": list(range(len(names)))})
+        report.case(distinct_key=("topo", i))
+        report.count("toposort." + ("cyclic" if cyc else "acyclic"))
+        replay = {"seed": seed, "index": i, "cycle_kind": cyc, "written_order": names, "deps": {names[j]: [names[x] for x in deps[j]] for j in range(len(names))},
+                  "model": m, "tool": {k: res.get(k) for k in ("validateError", "panic", "order")}, "files": c01._files_dir(root) if hasattr(c01, "_files_dir") else None}
+        if "panic" in res:
+            report.violation("tool:panic-in-validate", replay, "")
+            continue
+        tool_cycle = "reference cycle" in (res.get("validateError") or "")
+        if res.get("validateError") and not tool_cycle:
+            report.violation("generate:model", dict(replay, error=res["validateError"][:800]), "")
+            continue
+        if tool_cycle != bool(m.get("cycle")):
+            report.violation("toposort:cycle-verdict-differs", dict(replay, theorem_or_correspondence="Topo.sort vs topologicalSortTypes"),
+                             "the tool and the model disagree on whether the definitions contain a reference cycle")
+            continue
+        if tool_cycle:
+            continue
+        got = res["order"].get(pkg.namespace, [])
+        want = [names[j] for j in m["order"]]
+        pos = {n_: k for k, n_ in enumerate(got)}
+        bad = [(names[j], names[x]) for j in range(len(names)) for x in deps[j] if pos.get(names[x], 1 << 30) >= pos.get(names[j], -1)]
+        if sorted(got) != sorted(names) or bad:
+            report.violation("toposort:definitions-not-in-dependency-order", dict(replay, used_before_defined=bad[:10]),
+                             "after validation a definition precedes one it depends on (generated code would use a type before declaring it)")
+        elif got != want:
+            report.count("toposort.order-differs-from-model-but-sorted")
